@@ -8,6 +8,9 @@ import (
 	"github.com/enbility/spine-go/model"
 )
 
+// serialises the read-modify-write cycles on the use case data of the node management feature
+var useCaseMux sync.Mutex
+
 type EntityLocal struct {
 	*Entity
 	device   api.DeviceLocalInterface
@@ -139,6 +142,9 @@ func (r *EntityLocal) AddUseCaseSupport(
 	useCaseAvailable bool,
 	scenarios []model.UseCaseScenarioSupportType,
 ) {
+	useCaseMux.Lock()
+	defer useCaseMux.Unlock()
+
 	nodeMgmt := r.device.NodeManagement()
 
 	data, err := LocalFeatureDataCopyOfType[*model.NodeManagementUseCaseDataType](nodeMgmt, model.FunctionTypeNodeManagementUseCaseData)
@@ -180,6 +186,9 @@ func (r *EntityLocal) SetUseCaseAvailability(
 	actor model.UseCaseActorType,
 	useCaseName model.UseCaseNameType,
 	available bool) {
+	useCaseMux.Lock()
+	defer useCaseMux.Unlock()
+
 	nodeMgmt := r.device.NodeManagement()
 
 	data, err := LocalFeatureDataCopyOfType[*model.NodeManagementUseCaseDataType](nodeMgmt, model.FunctionTypeNodeManagementUseCaseData)
@@ -203,6 +212,9 @@ func (r *EntityLocal) RemoveUseCaseSupport(
 	actor model.UseCaseActorType,
 	useCaseName model.UseCaseNameType,
 ) {
+	useCaseMux.Lock()
+	defer useCaseMux.Unlock()
+
 	nodeMgmt := r.device.NodeManagement()
 
 	data, err := LocalFeatureDataCopyOfType[*model.NodeManagementUseCaseDataType](nodeMgmt, model.FunctionTypeNodeManagementUseCaseData)
@@ -223,6 +235,9 @@ func (r *EntityLocal) RemoveUseCaseSupport(
 
 // Remove all usecases
 func (r *EntityLocal) RemoveAllUseCaseSupports() {
+	useCaseMux.Lock()
+	defer useCaseMux.Unlock()
+
 	nodeMgmt := r.device.NodeManagement()
 
 	data, err := LocalFeatureDataCopyOfType[*model.NodeManagementUseCaseDataType](nodeMgmt, model.FunctionTypeNodeManagementUseCaseData)
